@@ -10,8 +10,8 @@ The numbers below are read from the evidence files of one quick run (from /verif
 thorough run of every check on the final state of /verif and /repo {note}. "evaluations" counts
 oracle evaluations (a case run under two build profiles counts twice; a damage case counts once per profile), "distinct
 non-trivial" the distinct fingerprints among the evaluations in which the monitors had something to observe (rule text in
-each evidence file). Wall times are those of a 16-core machine otherwise idle for the quick tier; the thorough tier was run
-while other work kept the machine busy. Every count is measured by the run that wrote the evidence file.
+each evidence file). Wall times are those of a 16-core machine with nothing else running. Every count is measured by the
+run that wrote the evidence file.
 
 {table}
 Sanitizers and interpreters in the thorough tier: AddressSanitizer for C01 (64 cases), C02 (96), C06 (3000), C07 and C13
